@@ -73,6 +73,8 @@ def to_steps(hist):
     for h in hist:
         a = h["a"]
         p = h.get("p", "p1")
+        if a == "Config":
+            continue      # the configuration of the behaviour: see config_of
         if a in ("Tx1", "Check"):
             if group is None:
                 group = dict(ops=[], sched=[], active={}, stop=None)
@@ -115,6 +117,19 @@ def to_steps(hist):
             rest = [m for m in ("nuts", "web") if m not in s["order"]]
             s["order"] = (s["order"] + rest)[:2]
     return steps
+
+
+def config_of(hist):
+    """The configuration a behaviour was generated for (first record of the history): enabled DID methods of the node in
+    preferred order and the way Create names the subject."""
+    for h in hist:
+        if h["a"] == "Config":
+            return dict(methods=[m for m in ("web", "nuts") if m in h["ms"]], naming=h["nm"])
+    return dict(methods=["web", "nuts"], naming="given")
+
+
+def cfg_tag(c):
+    return "%s/%s" % ("+".join(c["methods"]), c["naming"])
 
 
 def canonical(hist):
@@ -187,13 +202,14 @@ def generate(cfg, timeout=900, workers=8):
 
 
 def pick(behaviours, n, rnd):
-    """At most n behaviours, round robin over shape buckets (every bucket first)."""
+    """At most n behaviours (as scripts without id), round robin over (configuration, shape) buckets (every bucket first)."""
     buckets = {}
     for b in behaviours:
         st = to_steps(b)
-        # bucket: multiset of per-step classes (op, fault, cut) -- keeps rare fault combinations
-        key = tuple(sorted(set(shape([s]) for s in st)))
-        buckets.setdefault(key, []).append(st)
+        c = config_of(b)
+        # bucket: configuration + multiset of per-step classes (op, fault, cut) -- keeps rare fault combinations
+        key = (cfg_tag(c),) + tuple(sorted(set(shape([s]) for s in st)))
+        buckets.setdefault(key, []).append(dict(steps=st, **c))
     keys = sorted(buckets)
     rnd.shuffle(keys)
     for k in keys:
@@ -231,6 +247,18 @@ def hand_scripts():
             dict(p="p1", op="addKey", s="s1", net="ok"), dict(p="p2", op="addSvc", s="s1", net="ok")]), T, S]),
         dict(id="hand-two-subjects-blocked", steps=[op("create", s="s2"), op("create", s="s1", stop=0), op("addKey", s="s2", stop=0), T, S,
                                                      op("addKey", s="s2", retry=True)]),
+        # other node configurations / input classes of Create: the life cycle and a stop at every boundary of an update
+        dict(id="hand-nuts-only", methods=["nuts"], naming="given",
+             steps=[op("create", stop=0), T, S, op("create", retry=True), op("addSvc"), op("addKey", stop=0), T, S, op("addKey", stop=1), T, S,
+                    op("addKey", net="fail"), T, S, op("addKey", retry=True), op("deactivate"), T, S]),
+        dict(id="hand-web-only", methods=["web"], naming="given",
+             steps=[op("create", stop=0), T, S, op("addSvc"), op("addKey", stop=0), T, S, op("addKey", stop=1), T, S, op("deactivate"), T, S]),
+        dict(id="hand-legacy-name", methods=["web", "nuts"], naming="legacy",
+             steps=[op("create"), op("addSvc"), op("updSvc"), op("addKey", stop=1), T, S, op("addKey", retry=True), op("deactivate"), T, S]),
+        dict(id="hand-legacy-name-faults", methods=["web", "nuts"], naming="legacy",
+             steps=[op("create", net="fail"), T, S, op("create", stop=2), T, S, op("addKey"), op("addSvc"), T, S]),
+        dict(id="hand-generated-name", methods=["web", "nuts"], naming="generated",
+             steps=[op("create", stop=0), T, S, op("create", retry=True), op("addSvc"), op("deactivate"), T, S]),
     ]
 
 
@@ -305,6 +333,7 @@ def run(prop, tier, seed, replay=None):
     cfgs = ["Subject.presc.quick.cfg", "Subject.conc.presc.cfg"]
     if not quick:
         cfgs.append("Subject.presc.thorough.cfg")
+        cfgs.append("Subject.presc.configs.cfg")
     for cfg in cfgs:
         m = vlib.tlc("MCSubject", cfg, workers=8, timeout=1500, coverage=(not quick and cfg.endswith("quick.cfg")))
         if m.error:
@@ -322,7 +351,8 @@ def run(prop, tier, seed, replay=None):
     # 1b. vacuity guard: each deviation of the code, switched on alone, violates an invariant in the model
     expected = {"SweepAbortsOnUnpublishedCreate": "NoLogLeft", "AbandonKeepsDidRows": "RetryCanSucceed",
                 "OpsBuildOnPending": "VersionsConsecutiveAndGrow", "UpdatesDeactivated": "AllOrNothingAfterSweep",
-                "CheckOutsideTx": "SubjectHasOneDidSet"}
+                "CheckOutsideTx": "SubjectHasOneDidSet", "RenameWhileStoring": "SubjectHasOneDidSet",
+                "LogOnlyMultiChange": "AllOrNothingAfterSweep"}
     for dev, inv in sorted(expected.items()):
         m = vlib.tlc("MCSubject", "Subject.dev.%s.cfg" % dev, workers=4, timeout=600)
         if m.error:
@@ -333,9 +363,12 @@ def run(prop, tier, seed, replay=None):
 
     # 2. fault enumeration: behaviours of the descriptive model (= the code as it is)
     subjects = ["s1", "s2"]
-    gens = [("Subject.genall.cfg", None), ("Subject.gen.quick.cfg", 350 if quick else None)]
+    gens = [("Subject.genall.cfg", None), ("Subject.gen.quick.cfg", 350 if quick else None),
+            # the other node configurations (one enabled DID method) and input classes of Create (legacy / generated names)
+            ("Subject.gen.configs.cfg", 260 if quick else None)]
     if not quick:
         gens.append(("Subject.gen.thorough.cfg", 2500))
+        gens.append(("Subject.gen.configs.thorough.cfg", 1500))
     scripts, n_beh = hand_scripts(), 0
     for cfg, cap in gens:
         g, beh = generate(cfg, timeout=1500)
@@ -346,8 +379,8 @@ def run(prop, tier, seed, replay=None):
         if cfg == "Subject.genall.cfg" and quick:
             cap = 550
         chosen = pick(beh, cap or len(beh), rnd)
-        tag = cfg.split(".")[1] + ("T" if "thorough" in cfg else "")
-        scripts += [dict(id="%s-%05d" % (tag, i), steps=st) for i, st in enumerate(chosen)]
+        tag = cfg.split(".")[1] + ("C" if ".configs." in cfg else "") + ("T" if "thorough" in cfg else "")
+        scripts += [dict(sc, id="%s-%05d" % (tag, i)) for i, sc in enumerate(chosen)]
     # 2b. concurrent requests: ALL interleavings of the critical sections of two overlapping requests (after a
     # sequential set-up); thorough adds the interleavings with one injected network failure
     concs = [("Subject.conc.genall0.cfg", 260 if quick else None)]
@@ -429,19 +462,24 @@ def run(prop, tier, seed, replay=None):
             outcomes[o] = outcomes.get(o, 0) + 1
     mid = {k: v for k, v in orders.items() if ":1:" in k}
     samples = [dict(script=by_id[r["id"]]["steps"], violations=r["violations"][:3], real_trace_tail=r["trace"][-2:]) for r in results[:2]]
+    per_cfg = {}
+    for sc in scripts:
+        k = cfg_tag(dict(methods=sc.get("methods") or ["web", "nuts"], naming=sc.get("naming") or "given"))
+        per_cfg[k] = per_cfg.get(k, 0) + 1
     for r in results:
         if r["violations"] and len(samples) < 5:
             samples.append(dict(script=by_id[r["id"]]["steps"], violations=r["violations"][:3]))
     cov = dict(states=states, transitions=transitions, traces_validated_against_impl=validated, traces_accepted=acc,
                traces_rejected=len(rej), samples=samples, models=models, behaviours_available=n_beh,
-               behaviours_replayed_on_real_code=len(results), concurrent_schedules_replayed=n_conc, phase_wall_s=phases, oracle_evaluations=sum(r.get("checks", 0) for r in results),
+               behaviours_replayed_on_real_code=len(results), behaviours_replayed_per_configuration=per_cfg, concurrent_schedules_replayed=n_conc, phase_wall_s=phases, oracle_evaluations=sum(r.get("checks", 0) for r in results),
                operation_outcomes=outcomes, stop_between_commits_orders=mid, scripts_with_unrealised_order=miss,
                violations_by_class=counts, action_coverage=cover, exhaustive=(len(scripts) - len(hand_scripts()) == n_beh),
                rule="fault enumeration: TLC exhausts Subject.tla (op sequences x a network failure or a process stop at every step boundary "
-                    "x sweep before/after the minute x both method orders; plus every interleaving of the critical sections of two "
+                    "x sweep before/after the minute x both method orders x node configuration (enabled DID methods web+nuts / nuts / web) "
+                    "x naming of Create (given / generated / legacy); plus every interleaving of the critical sections of two "
                     "concurrent requests); the prescriptive configuration satisfies all six C13 invariants, "
                     "each named deviation alone violates one; behaviours of the descriptive model are replayed on the real SqlManager + "
-                    "didweb/didnuts managers over sqlite/didstore, the statement is evaluated on Resolve/ListDIDs/didstore/did_change_log "
+                    "didweb/didnuts managers over sqlite/didstore, the statement is evaluated on Resolve/ListDIDs/List/didstore/did_change_log and the (subject, documents) result of Create "
                     "after every successful return, after every complete sweep and on the repeated attempt; every recorded trace is "
                     "validated by TLC against TraceSubject.tla")
     vlib.write_evidence(prop, tier, seed, "model_checking", cov, time.time() - t0, len(rep.violations),
@@ -450,5 +488,6 @@ def run(prop, tier, seed, replay=None):
                          "operations and the sweep do not overlap (an operation takes less than the sweep's one minute threshold)",
                          "concurrent requests are scheduled at the boundaries of SQL transactions / autocommit statements of the SqlManager's database handle and of MethodManager.Commit calls (one request runs between two gates); at most two requests overlap, no stop while two are in flight",
                          "sqlite only; one service slot (type tA, two endpoints), assertion keys only, at most 2 subjects and 3-4 operations per behaviour",
+                      "single-method nodes and generated / legacy subject names are explored with one subject, sequential requests, 2 operations (quick) / 3 operations (thorough) per behaviour",
                          "Go map iteration order cannot be forced: scripts that stop between the two commits are repeated (<= 6 attempts) until the scripted order occurs"])
     return rep.finish()
